@@ -208,6 +208,17 @@ func decorations(op *Op, withArgs bool) []Dec {
 			out = append(out, Dec{Kind: "typename", ID: id})
 		}
 	}
+	// fragment on the interface / union with one nested type-conditioned fragment per
+	// implementer, under a CONCRETE parent type (only one of the nested fragments can apply)
+	for _, s := range sets {
+		td := types[s.Type]
+		if td.Kind != 'o' || len(td.Impl) == 0 || s.Owner == nil {
+			continue
+		}
+		for _, form := range absFragForms {
+			out = append(out, Dec{Kind: "absfrag", ID: s.Owner.ID, Form: form})
+		}
+	}
 	// @skip / @include
 	for _, s := range sets {
 		for _, n := range *s.Sel {
@@ -271,6 +282,10 @@ func argType(fd *fieldDef, name string) string {
 	}
 	return ""
 }
+
+// absFragForms: `... on I { id ... on A { zk: k } ... on B { b } }` (inline / named fragment,
+// on the interface I / on the union U, both orders of the nested fragments), simplest first.
+var absFragForms = []string{"inlIAB", "inlIBA", "fragIAB", "fragIBA", "inlUAB", "inlUBA", "fragUAB", "fragUBA"}
 
 // wrapForms: in which ways the run can be wrapped in place on scope type t.
 //
@@ -393,6 +408,55 @@ func apply(op *Op, d Dec) bool {
 		ns = append(ns, sel[j+1:]...)
 		*set.Sel = ns
 		op.Frags = append(op.Frags, newFrags...)
+		return true
+	case "absfrag":
+		var set selSet
+		found := false
+		for _, c := range op.sets() {
+			if c.Owner != nil && c.Owner.ID == d.ID {
+				set, found = c, true
+			}
+		}
+		if !found {
+			return false
+		}
+		td := types[set.Type]
+		if td == nil || td.Kind != 'o' || len(td.Impl) == 0 {
+			return false
+		}
+		okForm := false
+		for _, f := range absFragForms {
+			if f == d.Form {
+				okForm = true
+			}
+		}
+		if !okForm {
+			return false
+		}
+		onA := &Node{ID: op.newID(), K: 'i', HasCond: true, Cond: "A", Sel: []*Node{{ID: op.newID(), K: 'f', Alias: "zk", Name: "k"}}}
+		onB := &Node{ID: op.newID(), K: 'i', HasCond: true, Cond: "B", Sel: []*Node{{ID: op.newID(), K: 'f', Name: "b"}}}
+		var inner []*Node
+		cond := "U"
+		if strings.Contains(d.Form, "I") {
+			cond = td.Impl[0]
+			inner = append(inner, &Node{ID: op.newID(), K: 'f', Name: "id"})
+		}
+		if strings.HasSuffix(d.Form, "AB") {
+			inner = append(inner, onA, onB)
+		} else {
+			inner = append(inner, onB, onA)
+		}
+		var w *Node
+		var nf []Frag
+		if strings.HasPrefix(d.Form, "inl") {
+			w = &Node{ID: op.newID(), K: 'i', HasCond: true, Cond: cond, Sel: inner}
+		} else {
+			name := fmt.Sprintf("F%d", len(op.Frags)+1)
+			w = &Node{ID: op.newID(), K: 's', Name: name}
+			nf = append(nf, Frag{N: name, Cond: cond, Sel: inner})
+		}
+		*set.Sel = append(append([]*Node(nil), (*set.Sel)...), w)
+		op.Frags = append(op.Frags, nf...)
 		return true
 	case "typename":
 		var sel *[]*Node
